@@ -358,7 +358,7 @@ func init() {
 		c02Sweep(c, u, budget)
 		n, ops, prob, max := 8, 250, 2, 1000
 		if !quick {
-			n, ops, prob, max = 40, 500, 2, 9000
+			n, ops, prob, max = 100, 600, 6, 10000
 		}
 		c.walk(u, walkOpts{Worlds: n, Ops: ops, Proj: proj, Monitors: []monitor{monC02, monNonNeg}, Tune: c02Tune, EmitProb: prob, MaxCases: max})
 	}
